@@ -176,8 +176,13 @@ def instantiate(world):
             if u.get('via') == 'term':
                 # defined by a term  number x unit  (the number possibly a plain int)
                 from quantity.term import Term
-                units[u['sym']] = cls.new_unit(u['sym'], u['sym'] + '-name',
-                                               Term([(f, 1), (units[u['base']], 1)]))
+                if u.get('npow'):
+                    # number ** k x unit, e.g. (60, -1) or (2, 10): `factor` is the power's value
+                    nb, nk = u['npow']
+                    items = [(number(('int', nb)), nk), (units[u['base']], 1)]
+                else:
+                    items = [(f, 1), (units[u['base']], 1)]
+                units[u['sym']] = cls.new_unit(u['sym'], u['sym'] + '-name', Term(items))
             else:
                 units[u['sym']] = cls.new_unit(u['sym'], u['sym'] + '-name',
                                                f * units[u['base']])
@@ -275,7 +280,7 @@ def coq_obs(o, views):
 
 # ------------------------------------------------------------ random worlds
 
-def random_world(rng, n_classes=2, quantized_p=0.4, with_free=False):
+def random_world(rng, n_classes=2, quantized_p=0.4, with_free=False, with_npow=None):
     """User-declared types with chains of scaled units."""
     classes = []
     tag = ''.join(rng.choice('abcdefghij') for _ in range(3))
@@ -317,5 +322,14 @@ def random_world(rng, n_classes=2, quantized_p=0.4, with_free=False):
                     scales[sym] = f
             syms.append(sym)
         c = {'name': name, 'ref': ref, 'quantum': quantum, 'units': units}
+        if quantum is None and with_npow:
+            # a unit given by a two-item term  number ** k x unit  with k != 1 (seeded C01-j:
+            # the exponent of the numeric item ignored).  Drawn after the other units.
+            nb, nk = with_npow[0], with_npow[1]
+            base = syms[0] if len(syms) == 1 else syms[with_npow[2] % len(syms)]
+            f = Fraction(nb) ** nk
+            scales[f"{tag}{ci}np"] = f * scales[base]
+            units.append({'sym': f"{tag}{ci}np", 'factor': f"{f.numerator}/{f.denominator}",
+                          'fkind': 'frac', 'base': base, 'via': 'term', 'npow': [f"{nb}/1", nk]})
         classes.append(c)
     return {'predefined': False, 'classes': classes}
